@@ -19,6 +19,16 @@ def module_consts(pid):
     p = os.path.join(VERIF, 'harness', 'sfv', 'props', pid.lower() + '.py')
     if not os.path.exists(p):
         return {}
+    # the modules assemble their lists from sub-modules (c03_shift, c03_binop, ...): import them when possible
+    try:
+        for d in (os.path.join(VERIF, 'harness'), '/repo'):
+            if d not in sys.path:
+                sys.path.insert(0, d)
+        import importlib
+        mod = importlib.import_module('sfv.props.' + pid.lower())
+        return {name: list(getattr(mod, name, [])) for name in ('THEOREMS', 'PARTIAL', 'TARGETS', 'CORR_ONLY')}
+    except Exception:
+        pass
     src = open(p).read()
     out = {}
     for name in ('THEOREMS', 'PARTIAL', 'TARGETS', 'CORR_ONLY'):
